@@ -168,6 +168,10 @@ def r19_4_5(ctx) -> None:
     d = tb_.param_default("errors")
     ctx.check(const_value(d) == "strict" and const_value(tb_.param_default("charset")) == "utf-8", "R19.5", tb_, tb_.node, tb_.short, "to_bytes does not default to strict UTF-8", "utf-8 / strict",
               construct="to_bytes defaults")
+    encs = [n_ for n_ in fn_nodes(tb_) if isinstance(n_, ast.Call) and isinstance(n_.func, ast.Attribute) and n_.func.attr == "encode"]
+    ctx.check(bool(encs) and all([norm(a) for a in n_.args] + [f"{k.arg}={norm(k.value)}" for k in n_.keywords] in (["charset", "errors"], ["charset", "errors=errors"], ["encoding=charset", "errors=errors"])
+                                 for n_ in encs), "R19.5", tb_, tb_.node, f"{tb_.short} :: encode", "to_bytes does not encode with (charset, errors) in that order: an unknown error-handler name "
+              "turns an encoding failure into LookupError", "x.encode(charset, errors)", construct="to_bytes encode arguments")
 
 
 # pyca number constructors: slot (positional index / keyword) -> JWK member (RFC 7518 6.2 / 6.3)
@@ -204,11 +208,30 @@ def r19_8(ctx) -> None:
                 want = f"base64_to_int({op}['{member[slot]}'])"
                 direct = any(_reads_member_directly(t, op) for t in texts)
                 if not direct and (node.func.id, slot) not in MANDATORY_SLOTS:
-                    continue  # computed from other numbers (CRT parameters recovered from n, e, d)
+                    # computed from other numbers (CRT parameters recovered from n, e, d): pyca's helpers with their arguments in the documented order
+                    dd = f"base64_to_int({op}['d'])"
+                    comp = {"dmp1": f"rsa_crt_dmp1({dd}, p)", "dmq1": f"rsa_crt_dmq1({dd}, q)", "iqmp": "rsa_crt_iqmp(p, q)", "p": "p", "q": "q"}
+                    n += 1
+                    ctx.check(texts == [comp.get(slot, "?")], "R19.8", fn, node, f"{fn.short} :: {node.func.id}.{slot} (computed)", f"the recovered CRT value for {slot} is {texts}, "
+                              f"not {comp.get(slot)}", comp.get(slot, ""), construct=f"computed {node.func.id}.{slot} in {fn.short}")
+                    continue
                 n += 1
                 ctx.check(texts == [want], "R19.8", fn, node, f"{fn.short} :: {node.func.id}.{slot}", f"the integer given to {node.func.id}({slot}=...) is {texts}, not "
                           f"{want}: the JWK member does not reach the key as the number it encodes", want, construct=f"{node.func.id}.{slot} in {fn.short}")
-    ctx.count("R19.8", n, 16, "integers handed from a JWK to a pyca number constructor")
+    # p, q of the recovery branch come from rsa_recover_prime_factors(n, d, e) of the public numbers built above
+    for fn in eng.prog.all_functions():
+        if fn.name != "import_private_key" or fn.cls is None:
+            continue
+        op = fn.pos_params[-1]
+        for node in fn_nodes(fn):
+            if isinstance(node, ast.Call) and isinstance(node.func, ast.Name) and node.func.id == "rsa_recover_prime_factors":
+                n += 1
+                got = [t_ for a in node.args for t_ in resolve_all(eng, fn, a)]
+                pub = f"RSAPublicNumbers(base64_to_int({op}['e']), base64_to_int({op}['n']))"
+                want = [f"{pub}.n", f"base64_to_int({op}['d'])", f"{pub}.e"]
+                ctx.check(got == want, "R19.8", fn, node, f"{fn.short} :: rsa_recover_prime_factors", f"the prime factors are recovered from {got}, not from (n, d, e)", "rsa_recover_prime_factors(n, d, e)",
+                          construct=f"rsa_recover_prime_factors arguments in {fn.short}")
+    ctx.count("R19.8", n, 20, "integers handed from a JWK to a pyca number constructor")
 
 
 def _reads_member_directly(text: str, op: str) -> bool:
